@@ -18,6 +18,7 @@ import json
 import os
 import shutil
 import tempfile
+import time
 import pv
 import hpartlib as hl
 
@@ -123,7 +124,7 @@ def one_run(chk, name, variant, text, threads, container, singles, car_pairs, tm
         chk.tie_broken("OMP_NUM_THREADS", "asked for %d OpenMP threads, omp_get_max_threads() = %r" % (threads, facts.get("threads")))
     for op in facts.get("operators", []):
         kind = op.split("_")[0]
-        chk.case("large|%s|%s|threads=%d|rep=%d|%s" % (variant, canon, threads, repeat, op),
+        chk.case("large|%s|%s|threads=%d|%s" % (variant, canon, threads, op),        # a repeated run of the same input is not a distinct case
                  "large-block|%s|threads=%d|largest-block=%s|%s|%s" % (name.split(" #")[0], threads, facts.get("largest_block"), "one-by-one" if kind.endswith("1") else "container", variant),
                  nontrivial=(facts.get("largest_block") or 0) >= 64)
     seen = {}
@@ -182,6 +183,7 @@ def stage(chk, quick, analyse_dump):
     stats = {"label": LABEL, "runs": 0, "results": [], "skipped": [], "calibration": [], "failures_by_kind": {}}
     chk.extra["large_block_stage"] = stats
     tmpdir = tempfile.mkdtemp(prefix="c10large-", dir=pv.BUILD)
+    t0 = time.time()
     try:
         if not calibrate(chk, analyse_dump, tmpdir, stats):
             stats["note"] = "numpy reference not usable in this run: stage skipped"
@@ -221,6 +223,7 @@ def stage(chk, quick, analyse_dump):
         if not big:
             chk.tie_broken("large-block stage", "no run with a source block of dimension >= 64 and more than one OpenMP thread was analysed: %r" % (stats["skipped"][:2],))
     finally:
+        stats["wall_s"] = round(time.time() - t0, 1)
         shutil.rmtree(tmpdir, ignore_errors=True)
 
 
